@@ -241,18 +241,25 @@ fn stroke_undashed(
                 if p1 != p0 || p2 != p0 {
                     let q = QuadBez::new(p0, p1, p2);
                     let (tan0, tan1) = PathSeg::Quad(q).tangents();
-                    ctx.do_join(style, tan0);
-                    ctx.do_cubic(style, q.raise(), tolerance, opts);
-                    ctx.last_tan = tan1;
+                    // `tangents` gives up (zero vectors) on a segment that stays within
+                    // 1e-6 of its start point and returns to it: nothing to draw.
+                    if tan0 != Vec2::ZERO {
+                        ctx.do_join(style, tan0);
+                        ctx.do_cubic(style, q.raise(), tolerance, opts);
+                        ctx.last_tan = tan1;
+                    }
                 }
             }
             PathEl::CurveTo(p1, p2, p3) => {
                 if p1 != p0 || p2 != p0 || p3 != p0 {
                     let c = CubicBez::new(p0, p1, p2, p3);
                     let (tan0, tan1) = PathSeg::Cubic(c).tangents();
-                    ctx.do_join(style, tan0);
-                    ctx.do_cubic(style, c, tolerance, opts);
-                    ctx.last_tan = tan1;
+                    // See the quadratic case.
+                    if tan0 != Vec2::ZERO {
+                        ctx.do_join(style, tan0);
+                        ctx.do_cubic(style, c, tolerance, opts);
+                        ctx.last_tan = tan1;
+                    }
                 }
             }
             PathEl::ClosePath => {
@@ -464,7 +471,10 @@ impl StrokeCtx {
         let p2 = c.p2.to_vec2().dot(chord_ref);
         let p3 = c.p3.to_vec2().dot(chord_ref);
         const ENDPOINT_D: f64 = 0.01;
-        if p3 <= p0
+        // A segment shorter than the tolerance always takes the co-linear path: when it is
+        // only a few ulps long the projections below cannot order its points reliably.
+        if chord_ref_hypot2 <= tolerance.powi(2)
+            || p3 <= p0
             || p1 > p2
             || p1 < p0 + ENDPOINT_D * (p3 - p0)
             || p2 > p3 - ENDPOINT_D * (p3 - p0)
@@ -530,15 +540,23 @@ impl StrokeCtx {
                 let z = mt * (mt * mt * p[0] + 3.0 * t * (mt * p[1] + t * p[2])) + t * t * t * p[3];
                 let p = ref_pt + z * ref_vec;
                 let tan = p - self.last_pt;
+                if tan == Vec2::ZERO {
+                    // A double root of the derivative (the curve touches zero speed
+                    // without turning back) can come out of the solver as two nearly
+                    // equal roots; the second one is not a cusp.
+                    continue;
+                }
                 self.do_join(&style, tan);
                 self.do_line(&style, tan, p);
                 self.last_tan = tan;
             }
         }
         let tan = c.p3 - self.last_pt;
-        self.do_join(&style, tan);
-        self.do_line(&style, tan, c.p3);
-        self.last_tan = tan;
+        if tan != Vec2::ZERO {
+            self.do_join(&style, tan);
+            self.do_line(&style, tan, c.p3);
+            self.last_tan = tan;
+        }
         self.do_join(&style, tan1);
     }
 }
